@@ -6,7 +6,7 @@
 (* ids taken on an accepted path in the variable kf.                             *)
 EXTENDS SuffixArray, TLC
 
-KnownIds == {"C12-KF1", "C12-KF2", "C12-KF3", "C12-KF4"}
+KnownIds == {}
 
 (* written without \E: inside an action TLC would enumerate the witnesses as successor states *)
 TwoSymbols(t) == ~(\A i \in 1..Len(t) : t[i] = t[1])
